@@ -111,8 +111,8 @@ Definition modulo (a b : variant) : vres variant :=
           | Some false =>
               match ra, rb with
               | VInteger x, VInteger y => Ok (VInteger (Z.rem x y))
-              | VInteger _, VLong _ => Err EOverflow
-              | VLong _, _ => Err EOverflow
+              | VInteger _, (VLong _ | VSingle _ | VDouble _) => Err EOverflow
+              | (VLong _ | VSingle _ | VDouble _), _ => Err EOverflow
               | _, _ => Err ETypeMismatch
               end
           end
